@@ -65,6 +65,7 @@ type SRec struct {
 	Sample      string         `json:"sample,omitempty"`
 	Extra       map[string]int `json:"extra,omitempty"`
 	EngineErr   string         `json:"engine_err,omitempty"`
+	Recycle     bool           `json:"recycle,omitempty"` // the worker asks to be replaced (memory hygiene)
 }
 
 // W is the worker-side context of one scenario.
@@ -266,6 +267,7 @@ func workerMain(t *testing.T, c Check) {
 		n, _ := strconv.ParseInt(d, 10, 64)
 		deadline = time.Unix(n, 0)
 	}
+	totalExecs := 0
 	for {
 		line, err := in.ReadString('\n')
 		if err != nil {
@@ -302,7 +304,18 @@ func workerMain(t *testing.T, c Check) {
 		scs[idx].Run(w)
 		w.res.Outcomes = len(w.outcomes)
 		w.res.Nontrivial = len(w.nontriv)
+		totalExecs += w.res.Execs
+		// goroutines of executions that ended in a dead bubble stay blocked for ever: they are
+		// only memory, but a lot of it after some ten thousand executions
+		var ms runtime.MemStats
+		runtime.ReadMemStats(&ms)
+		if totalExecs > 200000 || ms.Sys > 1<<30 || runtime.NumGoroutine() > 20000 {
+			w.res.Recycle = true
+		}
 		w.emit("D", w.res)
+		if w.res.Recycle {
+			return
+		}
 	}
 }
 
@@ -608,6 +621,10 @@ func runAll(c Check, tier string, seed int64, n int, deadline time.Time, only ma
 							res.srecs = append(res.srecs, s)
 							mu.Unlock()
 							finished = true
+							if s.Recycle {
+								p.kill()
+								p = nil
+							}
 							break loop
 						}
 					case <-watch.C:
